@@ -3,8 +3,17 @@
 Tie: the real `Guard` (sync / async / sync-inside-a-loop; sync and async collaborators) against the
 model's `guardEval` on (allowed, effect); the statement itself (`Rbacx.Spec.c01`: allowed ⇔ permit,
 allowed ⇒ an applicable non-deny rule with exactly the returned obligations, all met per the built-in
-checker; nothing applicable ⇒ deny) is evaluated by the Lean driver on the implementation's Decision."""
+checker; nothing applicable ⇒ deny) is evaluated by the Lean driver on the implementation's Decision.
+
+Tie by regeneration: the statements of `Guard._evaluate_core_async` that build the env and that turn the raw decision into the returned
+`Decision` are translated from the current source text (harness/pytolean_async.py, plugin extractors/src_translation_engine.py; the
+awaited collaborator calls are outcome parameters), proved equal to the model's `buildEnv` / `finishDecision` by the per-run obligation
+`Run/C01_translated.lean`, and the translation is evaluated against the same statements run by CPython (`translated_vs_python`)."""
 from __future__ import annotations
+
+import itertools
+import json
+import random
 
 import guardcases as gc
 import lib
@@ -35,6 +44,167 @@ def deep_condition_probes(run: lib.Run) -> None:
                                               "spec": "permit although the only rule's condition is false / ill-typed (deeply nested condition)"})
 
 
+# ---------------------------------------------------------------------- the translated decision core vs the same statements run by CPython
+ABSENT = "<absent>"
+G_DECISIONS = ["permit", "deny", "Permit", None, 5]
+G_REASONS = ["matched", "explicit_deny", "no_match", None]
+G_IDS = [None, "r", ""]
+G_POLICY_IDS = [ABSENT, None, "p"]
+G_OBLIGATIONS = [ABSENT, None, [], [{"type": "require_mfa"}], "x"]
+G_CHALLENGES = [ABSENT, None, "c"]
+# what the awaited checker call did: returned a value (any value: the unpacking `ok, ch = …` is part of the range) or raised
+G_OUTCOMES = [("ok", (True, None)), ("ok", (False, None)), ("ok", (False, "mfa")), ("ok", (True, "c")), ("ok", (0, None)), ("ok", ("yes", None)),
+              ("ok", (None, None)), ("raised",), ("ok", (True, None, 1)), ("ok", 5), ("ok", None), ("ok", "ab"), ("ok", {"a": 1, "b": 2}),
+              ("ok", [False, "x"]), ("ok", ()), ("ok", "abc")]
+G_ROLES = [None, [], ["a"], ["b", "a", "a"], "ab", ""]
+G_ATTRS = [None, {}, {"k": 1}]
+G_RESOLVER = [(None, ("raised",)), ("<resolver>", ("ok", ["x", "y"])), ("<resolver>", ("ok", [])), ("<resolver>", ("ok", None)),
+              ("<resolver>", ("ok", "junk")), ("<resolver>", ("raised",))]
+
+
+def _raw(dec, reason, rid, lrid, pid, obls, ch):
+    d = {"decision": dec, "reason": reason, "rule_id": rid, "last_rule_id": lrid}
+    for k, v in (("policy_id", pid), ("obligations", obls), ("challenge", ch)):
+        if v != ABSENT:
+            d[k] = v
+    return d
+
+
+def gate_grid(run: lib.Run, n_random: int, full: bool):
+    """(raw, checker outcome): the fields the gate itself looks at exhaustively against every outcome, the fields it copies against a
+    few, then a seeded sample of (thorough: all of) the full product"""
+    if full:
+        for t in itertools.product(G_DECISIONS, G_REASONS, G_IDS, G_IDS, G_POLICY_IDS, G_OBLIGATIONS, G_CHALLENGES, G_OUTCOMES):
+            yield _raw(*t[:7]), t[7]
+        return
+    for dec, reason, obls, ch, out in itertools.product(G_DECISIONS, G_REASONS, G_OBLIGATIONS, G_CHALLENGES, G_OUTCOMES):
+        yield _raw(dec, reason, "r", None, ABSENT, obls, ch), out
+    for dec, rid, lrid, pid, out in itertools.product(G_DECISIONS, G_IDS, G_IDS, G_POLICY_IDS, G_OUTCOMES[:4] + G_OUTCOMES[7:9]):
+        yield _raw(dec, "matched", rid, lrid, pid, [], ABSENT), out
+    r = random.Random(run.seed * 263 + 5)
+    for _ in range(n_random):
+        yield (_raw(*(r.choice(g) for g in (G_DECISIONS, G_REASONS, G_IDS, G_IDS, G_POLICY_IDS, G_OBLIGATIONS, G_CHALLENGES))), r.choice(G_OUTCOMES))
+
+
+def env_grid(run: lib.Run, n_random: int):
+    """(subject fields, action name, resource fields, context attrs | ABSENT = no Context, self.role_resolver, resolver outcome, strict)"""
+    subjects = list(itertools.product(["u", None, 7], G_ROLES, G_ATTRS))
+    resources = list(itertools.product(["doc", None], [None, "1", 7], G_ATTRS + [{"level": 1.5}]))
+    contexts = [ABSENT, None, {}, {"mfa": True}]
+    for sub, (rr, out), strict in itertools.product(subjects, G_RESOLVER, (False, True)):
+        yield sub, "read", ("doc", "1", {}), {}, rr, out, strict
+    for res, act, ctx, strict in itertools.product(resources, ["read", None], contexts, (False, True)):
+        yield ("u", ["a"], {}), act, res, ctx, None, ("raised",), strict
+    r = random.Random(run.seed * 269 + 7)
+    for _ in range(n_random):
+        rr, out = r.choice(G_RESOLVER)
+        yield r.choice(subjects), r.choice(["read", None]), r.choice(resources), r.choice(contexts), rr, out, r.choice((False, True))
+
+
+def translated_vs_python(run: lib.Run, facts: dict) -> tuple[bool, str]:
+    """each translated range of `Guard._evaluate_core_async` (Generated.Src.engine_env / engine_gate, evaluated by `lake env lean --run
+    Rbacx/Run/SrcEvalEngine.lean`) against the SAME statements of the current source text, compiled as a real `async def` and driven by
+    CPython (pytolean_async.range_as_python): the awaited collaborator call is answered by a stub that returns the outcome's value or
+    raises — alternately a plain method and an `async def`, so that `maybe_await` takes both of its paths — and `maybe_await`, the
+    try/except, the tuple unpacking and the `Decision` constructor are CPython's own.  Validates the readings the obligation
+    C01_translated trusts (outcomes as inputs, try/except as a case split, the unpacking as part of the raising point, dataclasses as
+    records) and Model/PyLib.lean."""
+    import copy
+    import dataclasses
+    import subprocess
+
+    import proto
+    import pytolean_async as pa
+    import real
+    import rbacx.core.engine as reng
+    from extractors import src_translation_engine as plug
+    from rbacx.core.model import Action, Context, Resource, Subject
+    src, cfg = plug.config(real.REPO)
+    quick = run.tier == "quick"
+    runners = {}
+    for lean_name, start, last in plug.RANGES:
+        try:
+            pyf, inputs, _outs, exts = pa.range_as_python(src, plug.METHOD, start, last, cfg, vars(reng))
+        except pa.Unsupported as e:
+            return False, f"range {lean_name}: {e}"
+        if inputs != facts[lean_name]["inputs"] or exts != [x for x, _, _ in facts[lean_name]["externals"]]:
+            return False, f"range {lean_name}: inputs of the imported module {inputs} differ from the extracted ones {facts[lean_name]['inputs']}"
+        runners[lean_name] = (pyf, inputs, {x: p for x, p, _ in facts[lean_name]["externals"]})
+    fields = facts["decision_fields"]
+
+    def rec(obj):
+        return None if obj is None else {f.name: getattr(obj, f.name) for f in dataclasses.fields(obj)}
+    calls = []          # (range, wire args, wire outcomes, wanted)
+
+    def add(lean_name, values: dict, outcomes: dict, wire: dict, i: int, post=lambda x: x):
+        pyf, inputs, params = runners[lean_name]
+        try:
+            want = ("ok", proto.enc(post(pyf(copy.deepcopy(values), outcomes, use_async=bool(i % 2)))))
+        except Exception as e:  # noqa: BLE001
+            want = ("raised", type(e).__name__)
+        ext = {params[x]: ({"ok": proto.enc(o[1])} if o[0] == "ok" else {"raised": True}) for x, o in outcomes.items()}
+        calls.append((lean_name, [wire[v] for v in inputs], ext, want))
+    for i, (raw, out) in enumerate(gate_grid(run, 3000 * run.boost, not quick)):
+        add("engine_gate", {"raw": raw, "context": None}, {"self.obligations.check": out}, {"raw": raw, "context": None}, i,
+            post=lambda d: {f: getattr(d, f) for f in fields})
+    for i, (sub, act, res, ctx, rr, out, strict) in enumerate(env_grid(run, (1500 if quick else 15000) * run.boost)):
+        objs = {"subject": Subject(id=sub[0], roles=sub[1], attrs=sub[2]), "action": Action(name=act),
+                "resource": Resource(type=res[0], id=res[1], attrs=res[2]), "context": None if ctx == ABSENT else Context(attrs=ctx)}
+        values = {**objs, "self.role_resolver": rr, "self.strict_types": strict}
+        wire = {**{k: rec(v) for k, v in objs.items()}, "self.role_resolver": rr, "self.strict_types": strict}
+        add("engine_env", values, {"self.role_resolver.expand": out}, wire, i)
+    # what the sinks are handed: the `labels = …` / `payload = …` statements on Decision objects of every shape
+    for i, t in enumerate(itertools.product((True, False), ("permit", "deny"), ([], [{"type": "require_mfa"}]), (None, "mfa"), (None, "r"),
+                                            (None, "p"), ("matched", "obligation_failed", None))):
+        d = reng.Decision(**dict(zip(fields, t)))
+        add("engine_metric_labels", {"d": d}, {}, {"d": rec(d)}, i)
+        for env in ({}, {"subject": {"id": "u", "roles": ["a"], "attrs": {}}, "action": "read", "__strict_types__": True}):
+            add("engine_audit_payload", {"env": env, "d": d}, {}, {"env": env, "d": rec(d)}, i)
+    lines =[json.dumps({"fn": fn, "args": [proto.enc(a) for a in args], "oracle": proto.build_oracle(*args), "ext": ext}) for fn, args, ext, _ in calls]
+    p = subprocess.run(["lake", "env", "lean", "--run", "Rbacx/Run/SrcEvalEngine.lean"], cwd=lib.LEAN, input="\n".join(lines) + "\n",
+                       capture_output=True, text=True, timeout=1800)
+    outs = [ln for ln in p.stdout.split("\n") if ln]
+    if p.returncode != 0 or len(outs) != len(lines):
+        return False, "SrcEvalEngine: " + (p.stderr or p.stdout)[-800:]
+    bad = 0
+    for (fn, args, ext, want), ln in zip(calls, outs):
+        got = json.loads(ln)
+        run.count("translated-engine")
+        if want[0] != "ok":
+            run.count(f"translated-engine: {fn}: python raised {want[1]} (not judged)")
+            continue          # CPython raised (an argument outside the range's domain, e.g. attrs that dict() rejects): not judged
+        run.count(f"translated-engine: {fn}")
+        if got.get("value") != want[1]:
+            bad += 1
+            if bad == 1:
+                run.disagreements.append({"part": "translated source vs python", "range": fn, "args": args, "outcomes": ext,
+                                          "impl": {"python": want[1]}, "model": got,
+                                          "what": f"the translated range {fn} (Generated.Src) and the same statements run by CPython differ"})
+    run.evaluations += len(calls)
+    return bad == 0, f"{bad} of {len(calls)} evaluations differ" if bad else f"agree on {len(calls)} evaluations"
+
+
+def translated_obligation(run: lib.Run, audit: dict, differential: bool = True) -> tuple[bool, bool, str, dict | None]:
+    """run and register the per-run obligation C01_translated (and, with `differential`, the comparison with CPython); returns
+    (obligation discharged, comparison ok, Lean's message or the comparison's, the extracted translation)"""
+    tr = audit["facts"].get("translated_engine")
+    untranslatable = isinstance(tr, dict) and "extraction_failed" in tr
+    ok_tr, detail_tr = lib.run_obligation("C01_translated")
+    run.obligation("C01_translated: Generated.Src.{engine_env,engine_gate} (the current source text of Guard._evaluate_core_async: env "
+                   "construction, obligation gate and Decision; the awaited role resolver / obligation checker calls as outcome parameters) = "
+                   "the model's buildEnv / the Decision of finishDecision, for every raw decision, checker outcome, engine configuration and request",
+                   ok_tr, "discharged" if ok_tr else (str(tr["extraction_failed"]) if untranslatable else detail_tr))
+    if not differential:
+        return ok_tr, True, detail_tr, tr
+    if untranslatable or not isinstance(tr, dict):
+        ok_py, detail_py = True, "skipped: the decision core is not in the translatable subset (see C01_translated)"
+    else:
+        ok_py, detail_py = translated_vs_python(run, tr)
+    run.obligation("translated decision core evaluates like the same statements run by CPython (pytolean_async + Model/PyLib.lean + "
+                   "Model/PyAwait.lean vs CPython: awaited outcomes, try/except, unpacking, dataclass records)", ok_py, detail_py)
+    return ok_tr, ok_py, (detail_tr if not ok_tr else detail_py), tr
+
+
 def run_cases(run: lib.Run, audit: dict, scale: int = 1):
     quick = run.tier == "quick"
     consts = audit["facts"]["consts"]
@@ -60,22 +230,42 @@ def run_cases(run: lib.Run, audit: dict, scale: int = 1):
 def check(run: lib.Run, audit: dict) -> int:
     run.rule = ("exhaustive: every policy of ≤2 (quick, pairs subsampled 1/3) / ≤3 (thorough) rules from an 11-template pool × {3 algorithms, none} × "
                 "6 requests × lax/strict, sets of ≤2 children; random: schema-grammar policies, (nested) sets, rel conditions, hostile values, "
-                "with random checker (built-in / custom verdict / raising), role resolver, relationship checker, sinks, over 5 API flavours. "
+                "with random checker (built-in / custom verdict / raising), role resolver, relationship checker, sinks, over 5 API flavours; "
+                "the translated source of the engine's decision core vs the same statements run by CPython: 5 decisions × 4 reasons × 5 obligations "
+                "shapes × 3 challenge shapes × 16 checker outcomes (verdict pairs, raised, values that do not unpack), 9 rule-id pairs × 3 policy ids, "
+                "a seeded sample (quick) / all (thorough) of the full product; 54 subjects × 6 resolver outcomes, 24 resources × 4 contexts, lax/strict. "
                 "non-trivial = a rule decided (reason matched / explicit_deny / obligation_failed)")
     run.exhaustive = True
     run.assumptions = ["rules are JSON objects; effect/algorithm strings; roles a list or null; attrs/context objects or null (DESIGN §5 C06)",
                        "oracles: str()/float()/datetime parsing"]
     if not audit["ok"]:
         raise lib.CheckError(f"Lean build/audit failed at {audit['stage']}: {audit.get('log') or audit.get('forbidden') or audit.get('bad_axioms')}")
-    run_cases(run, audit, scale=run.boost)
+    # the decision core as it is written NOW, translated into Lean, is proved equal to the model's (per-run obligation)
+    ok_tr, ok_py, detail, tr = translated_obligation(run, audit)
+    run_cases(run, audit, scale=run.boost * (1 if ok_tr else 2))
     deep_condition_probes(run)
     violations = []
-    if run.disagreements and not run.spec_failures:
+    if (run.disagreements or not ok_tr) and not run.spec_failures:
         run_cases(run, audit, scale=4)
     if run.spec_failures:
         path = run.write_replay("spec", {"what": "the implementation's decision contradicts C01 (Rbacx.Spec.c01)", "case": run.spec_failures[0],
                                          "count": len(run.spec_failures)})
         violations.append((path, True))
+    elif not ok_tr:
+        path = run.write_replay("obligation", {"what": "per-run obligation Rbacx/Run/C01_translated.lean no longer checks: the translated source of the "
+                                               "engine's decision core (Guard._evaluate_core_async: env construction, obligation gate, Decision) is "
+                                               "not proved equal to the model's buildEnv / finishDecision, the functions theorems Rbacx.C01.* / "
+                                               "C07.c07_guard_* are about; the widened search found no policy and request on which the decision "
+                                               "contradicts C01",
+                                               "translation": tr, "lean": detail[-1500:], "first_disagreement": run.disagreements[:1]})
+        violations.append((path, False))
+    elif not ok_py or any(d.get("part") == "translated source vs python" for d in run.disagreements):
+        first = next((d for d in run.disagreements if d.get("part") == "translated source vs python"),
+                     {"part": "translated source vs python", "what": detail})
+        path = run.write_replay("correspondence", {"what": "translated source vs python: " + str(first.get("what")) + "; the obligation "
+                                                   "C01_translated rests on a translation that CPython contradicts (or that could not be evaluated)",
+                                                   "first": first, "count": len(run.disagreements)})
+        violations.append((path, False))
     elif run.disagreements:
         path = run.write_replay("correspondence", {"what": "model Rbacx.guardEval and Guard disagree on (allowed, effect); theorems Rbacx.C01.* no longer "
                                                    "speak about this code", "first": run.disagreements[0], "count": len(run.disagreements)})
@@ -89,6 +279,10 @@ def replay(run: lib.Run, audit: dict, path: str) -> int:
     import real
     rp = json.load(open(path))
     c = rp.get("case") or rp.get("first")
+    if not c or "policy" not in c:
+        print("nothing to re-run on the implementation:", rp.get("what"))
+        print("recorded:", c or rp.get("first_disagreement") or rp.get("lean"))
+        return 0
     print("impl now:", real.run_guard(c["policy"], c["request"], c["cfg"]))
     print("recorded:", c["impl"], "model:", c["model"])
     return 0
